@@ -63,7 +63,8 @@ RULE = {
            'cap+1,range-boundary,random} x random contents x random previous contents; non-trivial = the value crosses a '
            'reserved range, the 254/255 boundary, or is empty / at capacity',
     'C02': 'T1/T2: (old length, new length) pairs on both sides of 254/255 x layouts with unaligned NDEF TLV over-represented '
-           'x every cut point k; non-trivial = every (layout, lengths, k)',
+           'x every cut point k; two-operation histories on one tag object: write fails transiently at command k1 (k1 = 1 with '
+           'every error kind, command lost / response lost, and other k1), retry cut at every k2; non-trivial = every (layout, lengths, k)',
     'C03': 'T1/T2: writes as C01 plus format with and without wipe; reserved ranges directly after an empty NDEF TLV, '
            'directly after the message and beyond the data area over-represented; non-trivial = a reserved byte shares a '
            'write unit with an NDEF-area byte or lies inside the written region',
@@ -204,7 +205,8 @@ def gen_layout(rng, kind, big=False, want_cap=None, unaligned=False, tight=False
             fixed_R = set(range(104, 120))
         else:
             L.first, L.unit = 12, 8
-            L.hr = bytes([0x12, rng.choice([0x4C, 0x00])])
+            # every HR0 the code treats as dynamic memory (high nibble 1, low nibble != 1); 12 4C = Topaz-512
+            L.hr = bytes([rng.choice([0x12, 0x12, 0x13, 0x14, 0x1A, 0x1F, 0x10]), rng.choice([0x4C, 0x00])])
             nseg = rng.choice([2, 4, 4, 4, 8] + ([16] if big else []))
             total = 128 * nseg
             L.dend = total
@@ -615,6 +617,107 @@ def cut_case(ck, bt, L, old, new, rng, sample_real, prepared=False):
         bt.add('%s_cut %s %s' % (MODEL_PREFIX[L.kind], model_args(L2), hexarg(new)), ';'.join(views), L.kind + '-cut', case)
 
 
+FAULT_KINDS = [nfc.clf.TimeoutError, nfc.clf.TransmissionError, nfc.clf.ProtocolError]
+
+
+def retry_case(ck, L, old, new, k1, kind, executed, pid, rng, sample_real=1):
+    """two operations on the SAME tag object: tag.ndef.octets = new fails at its k1-th state-changing command
+    with a transient fault (lost command, or executed with the response lost; the tag answers again
+    afterwards), then the same assignment is retried and the tag leaves the field after k2 commands of
+    the retry, for every k2; a fresh reader then looks at the memory.  Monitor only (appendix D):
+    old | empty / no NDEF / not readable | new, and the uninterrupted retry succeeds and reads back."""
+    mem = bytearray(L.mem)
+    L2 = Layout()
+    L2.__dict__.update(L.__dict__)
+    L2.mem = mem
+    L2.put_message(mem, old)
+    case = {'layout': L2.describe(), 'old': hx(old), 'new': hx(new), 'retry': {'k1': k1, 'kind': kind.__name__, 'executed': executed}}
+
+    def history(cut2):
+        sim = L2.sim()
+        clf = FakeClf(sim)
+        tag = activate(clf)
+        nd = tag.ndef
+        if nd is None:
+            return None
+        clf.fault(k1, kind, executed)
+
+        def op():
+            tag.ndef.octets = new
+        r1 = classify(op)
+        clf._fault = None
+        n1 = len(sim.log)
+        m1 = bytes(sim.mem)
+        if cut2 is not None:
+            sim.cut_after = n1 + cut2
+        r2 = classify(op) if r1 != 'ok' else 'ok'
+        return dict(r1=r1, r2=r2, n1=n1, m1=m1, sim=sim)
+
+    h = history(None)
+    if h is None or h['r1'] == 'ok':       # k1 beyond the last command: nothing failed
+        return False
+    sim = h['sim']
+    log2 = sim.log[h['n1']:]
+    n2 = len(log2)
+    mems = [h['m1']]
+    cur = bytearray(h['m1'])
+    for addr, _o, _req, res in log2:
+        cur[addr:addr + len(res)] = res
+        mems.append(bytes(cur))
+    for k in sorted(set([0, 1, n2] + [rng.randrange(0, n2 + 1) for _ in range(sample_real)])):
+        if 0 <= k <= n2:
+            hk = history(k)
+            if bytes(hk['sim'].mem) != mems[k]:
+                ck.broken.append('harness: memory after a cut in the retry at command %d differs from the command-log prefix' % k)
+    one_unit = (L.off + 1) // L.unit == (L.off + 3) // L.unit
+    ll = 'short' if len(new) < 255 else 'long-oneunit' if one_unit else 'long-straddle'
+    ex = 'executed' if executed else 'lost'
+    reported = False
+    for k in range(n2 + 1):
+        fr, _fcap, foct = fresh_view(L2, mems[k])
+        ck.case((L.kind, 'retry', hx(mem), hx(new), k1, kind.__name__, executed, k), True,
+                {'tag': L.kind, 'history': 'write fails at command %d (%s, %s), retry cut after %d of %d' % (k1, kind.__name__, ex, k, n2),
+                 'fresh': fr[:24]} if k == 1 else None)
+        ok = fr in ('nondef', 'notreadable', 'msg -') or foct == old or foct == new or fr.startswith('failed err')
+        if not ok and not reported and pid == 'C02':
+            reported = True
+            ck.violation('%s:retry-cut:%s:%s:mixture' % (L.kind, ll, ex),
+                         'write fails transiently at command %d (%s), the retry on the same tag object is cut after %d of %d commands: a fresh reader '
+                         'sees a %d byte message that is neither the old (%d) nor the new (%d) one' % (k1, ex, k, n2, len(foct), len(old), len(new)),
+                         dict(case, cut_after=k, commands=n2, fresh=fr[:120]))
+    fr, _fcap, foct = fresh_view(L2, mems[n2])
+    if pid == 'C01' and (h['r2'] != 'ok' or foct != new):
+        ck.violation('%s:retry:%s:%s' % (L.kind, 'fails' if h['r2'] != 'ok' else 'readback', ex),
+                     'the retry of an assignment that failed transiently at command %d (%s) %s' % (
+                         k1, ex, 'fails with ' + h['r2'] if h['r2'] != 'ok' else 'does not read back'), dict(case, result=h['r2'], fresh=fr[:120]))
+    ck.count('%s-retry-histories' % L.kind)
+    ck.count('%s-retry-cut-points' % L.kind, n2 + 1)
+    return True
+
+
+def retry_cases(ck, L, old, new, pid, rng, extra):
+    """k1 = 1 with every error kind and both fates of the command, plus a few other k1"""
+    n = len(run_write_on(L, old, new))
+    todo = [(1, FAULT_KINDS[0], False), (1, FAULT_KINDS[1], True), (1, FAULT_KINDS[2], False), (1, FAULT_KINDS[0], True)]
+    for k1 in sorted(set([2, n - 1, n] + [rng.randrange(1, n + 1) for _ in range(extra)] if n else [])):
+        if 1 < k1 <= n:
+            todo.append((k1, rng.choice(FAULT_KINDS), rng.random() < 0.5))
+    if L.kind == 't1d' and len(new) >= 255 and (L.off + 1) // L.unit != (L.off + 3) // L.unit:
+        return      # the open Type 1 finding of findings/C02.json (length commit across two blocks) is not re-counted here
+    for k1, kind, executed in todo:
+        if k1 <= n:
+            retry_case(ck, L, old, new, k1, kind, executed, pid, rng)
+
+
+def run_write_on(L, old, new):
+    mem = bytearray(L.mem)
+    L2 = Layout()
+    L2.__dict__.update(L.__dict__)
+    L2.mem = mem
+    L2.put_message(mem, old)
+    return run_write(L2, new)['sim'].log
+
+
 def corpus(ck, bt, pid, rng):
     """minimised past failures"""
     # Type 2, static memory, NDEF TLV at 16
@@ -641,6 +744,24 @@ def corpus(ck, bt, pid, rng):
         format_case(ck, bt, L, 0)
     if pid == 'C01':
         write_case(ck, bt, L, b'\xd0\x00\x00', pid, rng)
+    # static Topaz, first write command lost, retry on the same tag object (seeded regression C02-b1)
+    L = Layout()
+    L.kind, L.first, L.unit, L.off, L.dend, L.oneway, L.hr = 't1s', 12, 1, 12, 120, set(), bytes([0x11, 0x00])
+    L.R = set(range(104, 120))
+    L.mem = bytearray(bytes([1, 2, 3, 4, 5, 6, 7, 0, 0xE1, 0x10, 0x0E, 0]) + bytes([3, 0]) + bytes(106))
+    L.cap_expected = 90
+    if pid in ('C01', 'C02'):
+        retry_cases(ck, L, bytes(range(1, 46)), bytes(range(100, 112)), pid, rng, 1)
+    # dynamic memory with HR0 = 14h (not Topaz-512), message stored past byte 127 (seeded regression C01-b4)
+    L = Layout()
+    L.kind, L.first, L.unit, L.off, L.dend, L.oneway, L.hr = 't1d', 12, 8, 13, 512, set(), bytes([0x14, 0x00])
+    L.R = set(range(104, 128))
+    L.mem = bytearray(bytes([1, 2, 3, 4, 5, 6, 7, 0, 0xE1, 0x10, 0x3F, 0]) + bytes([0, 3, 0]) + bytes(497))
+    L.cap_expected = 512 - 13 - 24 - 4
+    if pid in ('C01', 'C03'):
+        write_case(ck, bt, L, bytes((i % 251) + 1 for i in range(200)), pid, rng)
+    if pid == 'C02':
+        cut_case(ck, bt, L, bytes(range(40)), bytes((i % 251) + 1 for i in range(200)), rng, 1)
     if 't1d' not in KINDS:
         return
     # Type 1, dynamic memory (Topaz-512 management TLVs), empty message
@@ -679,7 +800,11 @@ def replay(ck, pid, mr, path):
         return False
     L = Layout.from_desc(case['layout'])
     bt = Batch(ck, mr)
-    if 'new' in case:
+    if 'retry' in case:
+        r = case['retry']
+        kind = [k for k in FAULT_KINDS if k.__name__ == r['kind']][0]
+        retry_case(ck, L, bytes.fromhex(case['old']), bytes.fromhex(case['new']), r['k1'], kind, r['executed'], pid, ck.rng)
+    elif 'new' in case:
         # the layout recorded for a cut case already holds the old message
         cut_case(ck, bt, L, bytes.fromhex(case['old']), bytes.fromhex(case['new']), ck.rng, 2, prepared=True)
     elif 'data' in case:
@@ -749,6 +874,14 @@ def run(ck, pid, mr):
                     for n in range(0, L.cap_expected + 2):
                         write_case(ck, bt, L, rnd(rng, n), pid, rng)
                     bt.flush()
+        if pid in ('C01', 'C02'):
+            # two-operation histories on the same tag object (stale reader cache after a failed write)
+            for i in range((12 if quick else 150) if pid == 'C02' else (6 if quick else 60)):
+                L = gen_layout(rng, kind, want_cap=(300 if kind != 't1s' and i % 3 == 0 else None), unaligned=(i % 2 == 0))
+                cands = [x for x in [0, 1, 40, 254, 255, 300] if x <= L.cap_expected] + [rng.randrange(0, L.cap_expected + 1)]
+                old = rnd(rng, rng.choice(cands[1:]))
+                new = rnd(rng, rng.choice([c for c in cands if c <= 320]))
+                retry_cases(ck, L, old, new, pid, rng, 1 if quick else 3)
         if pid == 'C02':
             npairs = 150 if quick else 2500
             grid = [0, 1, 40, 253, 254, 255, 256, 300]
